@@ -82,14 +82,17 @@ PROPS: dict = {
             "holding merge-function objects the model does not distinguish (adaptive=False, other n_max/decay, a user subclass inheriting a "
             "built-in name), then set_merge by that name vs the constructor route (attributes and clustering of a probe set); a chosen "
             "tolerance followed through set_merge calls without tolerance via never-merge / objects / other tolerance criteria"},
-    "C18": {"suites": [sk.suite_sk, sk.suite_assign, props_tree.c01],
+    "C18": {"suites": [sk.suite_sk, sk.suite_assign, props_tree.c01, gen.suite_gen({"sklearn"})],
             "rule": "generated data sets (several clusters of distinct and equal sizes) fitted through bblean.sklearn.BitBirch (packed) / "
                     "UnpackedBitBirch, compute_labels on/off, fit vs fit_predict; labels_, subcluster_centers_, predict and transform "
                     "(exact rationals) of non-empty query rows compared with the model; the assignment vector is also part of the "
                     "V_out comparison of every tree history; one or two calls (fit / partial_fit / fit_predict in any combination) on one "
                     "estimator, the centroids compared with the majority vote of the current clusters; S-ASSIGN: explicit reinsert labels "
                     "(permutation, duplicate id, out-of-range id, re-insertion without reset): refused or the ranks, vs the model; "
-                    "non-trivial = fit with more than one cluster"},
+                    "non-trivial = fit with more than one cluster; S-GEN sklearn stream: fit / partial_fit / fit_predict of the real wrapper, one or "
+                    "two calls on one estimator, compute_labels on / off, base-class fit and get_assignments recorded in call order, vs the "
+                    "generated methods (returned value, labels_, centres, centre labels, call log)",
+            "proof_modules": ["BBProps.C18", "BBProofs.Assign", "BBProofs.GenEq14", "BBProofs.GenEq", "BBGen.Gen", "BBModel.PyNum"]},
     "C20": {"suites": [monitor.suite_monitor, gen.suite_gen({"monitor", "reader"})], "rule": RULE_MON + "; S-GEN monitor stream: bblean._memory.monitor_rss_process "
             "run for real (real files) with a scripted process tree, clock and sleep; every iteration's file effects recorded at the module's "
             "own open / os / time names vs the generated loop body, and the peak file after every iteration = the complete running maximum; "
